@@ -219,3 +219,62 @@ def _(v):
                      "a step may read state that save/load loses" % (p, t))
     for c in sorted(classified - seen):
         v.ground("classification_exists.%s" % c, False, "classified member does not exist in struct reb_simulation any more")
+
+
+# ---------------------------------------------------------------------------------------------- loader fix-ups
+@P.task("loader.fixups_write_only_reconstructed_members", fn="reb_input_fields", files=["src/input.c"])
+def _(v):
+    """After the last field has been read (label finish_fields) the loader may assign only what it must RECONSTRUCT: members that
+    hold addresses (var_config[].sim, particles[].c/.ap/.sim), counters that are defined by what was read (N_allocated), the
+    tree, and request flags listed as reconstructed.  Any other member of the simulation was either read from the stream or
+    keeps the default of a fresh simulation; a fix-up that overwrites a persisted member (e.g. recomputes max_radius0/1 from
+    the particles) makes the restored simulation differ from the saved one."""
+    from engine import frames
+    tu, fn = v.eng.find_function("reb_input_fields")
+    body = tu.body(fn)
+    label = [n for n in frames.walk(body) if n.get("kind") == "LabelStmt" and n.get("name") == "finish_fields"]
+    v.ground("finish_section_found", len(label) == 1, "LabelStmt finish_fields: %d" % len(label))
+    if len(label) != 1:
+        return
+    # statements of the function body from the label to the end
+    top = [c for c in body.get("inner", ()) if isinstance(c, dict)]
+    k = next((i for i, c in enumerate(top) if c.get("kind") == "LabelStmt" and c.get("name") == "finish_fields"), None)
+    v.ground("finish_section_is_top_level", k is not None, "")
+    if k is None:
+        return
+    section = top[k:]
+
+    def path(n):
+        """r->a.b[i].c  ->  'a.b.*.c' (None if not rooted at the parameter r)"""
+        n = frames.strip_casts(n)
+        kd = n.get("kind")
+        if kd == "MemberExpr":
+            base = path(n["inner"][0])
+            return None if base is None else (base + "." + n["name"] if base else n["name"])
+        if kd == "ArraySubscriptExpr":
+            base = path(n["inner"][0])
+            return None if base is None else base + ".*"
+        if kd == "DeclRefExpr":
+            return "" if n.get("referencedDecl", {}).get("name") == "r" else None
+        if kd == "UnaryOperator" and n.get("opcode") == "*":
+            return path(n["inner"][0])
+        return None
+    written = set()
+    for s_ in section:
+        for n in frames.walk(s_):
+            if n.get("kind") in ("BinaryOperator", "CompoundAssignOperator") and str(n.get("opcode", "")).endswith("="):
+                if n.get("opcode") in ("==", "!=", "<=", ">="):
+                    continue
+                pth = path(n["inner"][0])
+                if pth:
+                    written.add(pth)
+            if n.get("kind") == "UnaryOperator" and n.get("opcode") in ("++", "--"):
+                pth = path(n["inner"][0])
+                if pth:
+                    written.add(pth)
+    allowed = set(RECONSTRUCTED) | {"var_config.*.sim", "particles.*.c", "particles.*.ap", "particles.*.sim"}
+    extra = sorted(written - allowed)
+    v.ground("only_reconstructed_members_assigned", not extra,
+             "assigned after finish_fields: %s; not in the reconstructed list: %s" % (sorted(written), extra))
+    calls = sorted({frames.callee_name(n) for s_ in section for n in frames.walk(s_) if n.get("kind") == "CallExpr"} - {None})
+    v.ground("only_tree_helpers_called", set(calls) <= {"reb_tree_delete", "reb_tree_add_particle_to_tree"}, "calls after finish_fields: %s" % calls)
